@@ -8,6 +8,8 @@ infeasible / unbounded exactly under the condition that makes it true.
 
 Registered at run time:  cobra.util.solver.solvers["symlp"] = <this module>.
 """
+import itertools
+import math
 import sys
 import uuid
 
@@ -22,6 +24,7 @@ from . import vsym
 from .vsym import SymReal, NotModelled, lift, rv
 
 _is_sym = lambda x: isinstance(x, SymReal)  # noqa: E731
+MILP_MAX_ASSIGNMENTS = 64
 BAND = 1e-3      # see _optimize: instances infeasible by less than BAND (absolute, bounds are O(10)) are excluded: GLPK was seen to call an LP infeasible by 1.5e-4 optimal
 
 
@@ -807,7 +810,7 @@ class Model(oi.Model):
         if E is None or not E.symbolic:
             raise vsym.HarnessError("symlp.optimize outside a symbolic path")
         if self.is_integer:
-            raise NotModelled("integer/binary variables (MILP) are outside the LP contract")
+            return self._optimize_milp(E)
         self._nsolve += 1
         n = len(E.solve_log)
         tag = "s%d" % n
@@ -963,6 +966,197 @@ class Model(oi.Model):
                          obj=SymReal(objv))
         rec["status"] = OPTIMAL
         rec["obj"] = objv
+        return OPTIMAL
+
+
+    # the MILP contract (small numbers of bounded integer variables) ---------------------------------
+    def _optimize_milp(self, E):
+        """Contract of a MILP solver for problems whose integer variables have small concrete ranges: the
+        integer assignments are enumerated *inside the formula* (no forks): the returned point is feasible for
+        one assignment, and for every assignment either the LP restricted to it is infeasible (quantifier-free
+        condition from qe2) or a KKT-certified optimum of it exists that is not better than the returned value.
+        Duals are undefined for integer problems (optlang raises ValueError)."""
+        self._nsolve += 1
+        n = len(E.solve_log)
+        tag = "s%d" % n
+        V = list(self._variables)
+        VI = [v for v in V if v._type in ("integer", "binary")]
+        VC = [v for v in V if v._type not in ("integer", "binary")]
+        rows = list(self._constraints)
+        obj = self._objective._expression
+        sense = self._objective._direction
+        sgn = 1 if sense == "max" else -1
+        doms = []
+        for v in VI:
+            lo, hi = v._lb, v._ub
+            if v._type == "binary":
+                lo = 0 if lo is None else lo
+                hi = 1 if hi is None else hi
+            if lo is None or hi is None or _is_sym(lo) or _is_sym(hi) or vsym.is_inf(lo) or vsym.is_inf(hi):
+                raise NotModelled("integer variable %s without concrete finite bounds" % v.name)
+            lo_i, hi_i = int(math.ceil(float(lo) - 1e-9)), int(math.floor(float(hi) + 1e-9))
+            doms.append(list(range(lo_i, hi_i + 1)))
+        nass = 1
+        for dmn in doms:
+            nass *= max(1, len(dmn))
+        if nass > MILP_MAX_ASSIGNMENTS:
+            raise NotModelled("MILP with %d integer assignments (limit %d)" % (nass, MILP_MAX_ASSIGNMENTS))
+        assignments = [dict(zip(VI, combo)) for combo in itertools.product(*doms)]
+        lbs = {o: (None if vsym.is_inf(o._lb) else o._lb) for o in VC + rows}
+        ubs = {o: (None if vsym.is_inf(o._ub) else o._ub) for o in VC + rows}
+        for o in VC + rows:
+            if (vsym.is_inf(o._lb) and float(o._lb) > 0) or (vsym.is_inf(o._ub) and float(o._ub) < 0):
+                raise NotModelled("inward infinite bound in a MILP")
+
+        def lin(e, vals, ints):
+            t = rv(0) if _conc_zero(e.k) else lift(e.k)
+            for v, co in e.c.items():
+                if _conc_zero(co):
+                    continue
+                if v in ints:
+                    if ints[v] != 0:
+                        t = t + lift(co) * rv(ints[v])
+                else:
+                    t = t + lift(co) * vals[v]
+                    if _is_sym(co):
+                        E.stats["nonlinear_terms"] += 1
+            return t
+
+        def feas_of(vals, ints, slack=None):
+            out = []
+            for v in VC:
+                if lbs[v] is not None:
+                    out.append(vals[v] >= (lift(lbs[v]) - slack if slack is not None else lift(lbs[v])))
+                if ubs[v] is not None:
+                    out.append(vals[v] <= (lift(ubs[v]) + slack if slack is not None else lift(ubs[v])))
+            acts = {}
+            for c in rows:
+                r = lin(c._expression, vals, ints)
+                acts[c] = r
+                if lbs[c] is not None:
+                    out.append(r >= (lift(lbs[c]) - slack if slack is not None else lift(lbs[c])))
+                if ubs[c] is not None:
+                    out.append(r <= (lift(ubs[c]) + slack if slack is not None else lift(ubs[c])))
+            return (z3.And(*out) if out else z3.BoolVal(True)), acts
+
+        # returned point: continuous part x, integer part b (reals constrained to one assignment)
+        x = {v: z3.Real("%s.x.%s" % (tag, v.name)) for v in VC}
+        b = {v: z3.Real("%s.x.%s" % (tag, v.name)) for v in VI}
+        sel = []
+        for a in assignments:
+            f, _ = feas_of(x, a)
+            sel.append(z3.And(*([b[v] == rv(a[v]) for v in VI] + [f])))
+        feas_star = z3.Or(*sel)
+        rec = dict(n=n, site=_site(), x={v.name: (x[v] if v in x else b[v]) for v in V}, sense=sense, milp=True)
+        E.solve_log.append(rec)
+
+        def arbitrary(status):
+            sol = dict(x={v: E.fresh("%s.junk.%s" % (tag, v.name)) for v in V}, d={}, y={},
+                       obj=E.fresh("%s.junkobj" % tag))
+            self._sol = sol
+            rec["status"] = status
+            rec["x"] = {v.name: sol["x"][v].t for v in V}
+            return status
+
+        allx = [x[v] for v in VC] + [b[v] for v in VI]
+        if not E.exists_fork(allx, feas_star, name="%s.feasible" % tag):
+            if BAND:
+                rel = []
+                for a in assignments:
+                    f, _ = feas_of(x, a, slack=rv(BAND))
+                    rel.append(f)
+                E.assume(E.forall_not([x[v] for v in VC], z3.Or(*rel)))
+            return arbitrary(INFEASIBLE)
+
+        # unbounded: integer variables are bounded, so the recession cone lives in the continuous variables
+        dd = {v: z3.Real("%s.r.%s" % (tag, v.name)) for v in VC}
+        zero_ints = {v: 0 for v in VI}
+        cone = []
+        symbolic_cone = False
+        for v in VC:
+            if lbs[v] is not None:
+                cone.append(dd[v] >= 0)
+            if ubs[v] is not None:
+                cone.append(dd[v] <= 0)
+        for c in rows:
+            e = LinExpr(c._expression.c, 0)
+            if any(_is_sym(co) for vv, co in e.c.items() if vv not in zero_ints):
+                symbolic_cone = True
+            r = lin(e, dd, zero_ints)
+            if lbs[c] is not None:
+                cone.append(r >= 0)
+            if ubs[c] is not None:
+                cone.append(r <= 0)
+        if any(_is_sym(co) for vv, co in obj.c.items() if vv not in zero_ints):
+            symbolic_cone = True
+        cone.append(sgn * lin(LinExpr(obj.c, 0), dd, zero_ints) > 0)
+        cone_f = z3.And(*cone)
+        if symbolic_cone:
+            unb = E.exists_fork(list(dd.values()), cone_f, name="%s.unbounded" % tag)
+        else:
+            s = z3.Solver()
+            s.add(cone_f)
+            r = s.check()
+            if r == z3.unknown:
+                raise vsym.Inconclusive("recession cone query unknown")
+            unb = (r == z3.sat)
+        if unb:
+            return arbitrary(UNBOUNDED)
+
+        # value of the returned point: objective with the integer part expanded over the selected assignment
+        def obj_at(vals, ints):
+            return lin(obj, vals, ints)
+
+        val_star = z3.Real("%s.val" % tag)
+        E._add(z3.And(*[z3.Implies(z3.And(*[b[v] == rv(a[v]) for v in VI]), val_star == obj_at(x, a))
+                        for a in assignments]))
+        # optimality: no assignment admits a better LP optimum
+        for k, a in enumerate(assignments):
+            xa = {v: z3.Real("%s.a%d.x.%s" % (tag, k, v.name)) for v in VC}
+            fa, acts = feas_of(xa, a)
+            neg = z3.simplify(E.forall_not([xa[v] for v in VC], fa)) if VC else z3.simplify(z3.Not(fa))
+            if z3.is_true(neg):
+                continue
+            ya = {c: z3.Real("%s.a%d.y.%s" % (tag, k, c.name)) for c in rows}
+            da = {v: z3.Real("%s.a%d.d.%s" % (tag, k, v.name)) for v in VC}
+            kkt = [fa]
+            for v in VC:
+                cj = obj.c.get(v, 0)
+                t = rv(0) if _conc_zero(cj) else sgn * lift(cj)
+                for c in rows:
+                    aij = c._expression.c.get(v, 0)
+                    if not _conc_zero(aij):
+                        t = t - lift(aij) * ya[c]
+                kkt.append(da[v] == t)
+                if ubs[v] is not None:
+                    kkt.append(z3.Implies(da[v] > 0, xa[v] == lift(ubs[v])))
+                else:
+                    kkt.append(da[v] <= 0)
+                if lbs[v] is not None:
+                    kkt.append(z3.Implies(da[v] < 0, xa[v] == lift(lbs[v])))
+                else:
+                    kkt.append(da[v] >= 0)
+            for c in rows:
+                if ubs[c] is not None:
+                    kkt.append(z3.Implies(ya[c] > 0, acts[c] == lift(ubs[c])))
+                else:
+                    kkt.append(ya[c] <= 0)
+                if lbs[c] is not None:
+                    kkt.append(z3.Implies(ya[c] < 0, acts[c] == lift(lbs[c])))
+                else:
+                    kkt.append(ya[c] >= 0)
+            kkt.append(sgn * obj_at(xa, a) <= sgn * val_star)
+            body = z3.And(*kkt)
+            E._add(body if z3.is_false(neg) else z3.Or(neg, body))
+        E.last_model = None
+        ok, _ = E._check(None)
+        if not ok:
+            raise vsym.HarnessError("MILP contract unsatisfiable on a feasible, bounded problem")
+        sol_x = {v: SymReal(x[v]) for v in VC}
+        sol_x.update({v: SymReal(b[v]) for v in VI})
+        self._sol = dict(x=sol_x, d={}, y={}, obj=SymReal(val_star))
+        rec["status"] = OPTIMAL
+        rec["obj"] = val_star
         return OPTIMAL
 
     # copying ------------------------------------------------------------------------------------
